@@ -116,8 +116,9 @@ pub fn corpus(tier: Tier) -> Vec<(String, Message)> {
     for t in &t_resp {
         for id in i_some.iter().take(2) {
             for token in [None, Some(vec![]), Some(vec![b'1']), Some((100..120u8).collect::<Vec<u8>>()), Some(vec![b':'; 64])] {
-                for nv in [0usize, 1, 2, 3] {
-                    let values: Vec<SocketAddr> = (0..nv).map(|i| if i % 2 == 0 { v4(i + 1) } else { v6(i + 1) }).collect();
+                for nv in [0usize, 1, 2, 3, 4] {
+                    // nv == 4: the same peer listed twice (adjacent and apart)
+                    let values: Vec<SocketAddr> = if nv == 4 { vec![v4(1), v4(1), v6(2), v4(1)] } else { (0..nv).map(|i| if i % 2 == 0 { v4(i + 1) } else { v6(i + 1) }).collect() };
                     for n4 in [0usize, 1, 2, 8, 50] {
                         for n6 in [0usize, 1, 8] {
                             // keep the response within one datagram's worth of sanity (not required by C13, only to stay realistic)
@@ -213,6 +214,7 @@ fn unknown_key_variants(canon: &Val) -> Vec<Vec<u8>> {
     let keys = ["v", "ip", "ro", "noseed", "scrape", "name", "seed", "zz", "0", "A"];
     let vals = vec![
         Val::s("UT\x01\x02"),
+        Val::Bytes(vec![b'U', b'T', 0xb0, 0xd5, 0xff, 0xfe]),
         Val::Bytes(vec![]),
         Val::Int(i64::MAX),
         Val::Int(i64::MIN),
@@ -431,7 +433,7 @@ pub fn run(tier: Tier) -> Report {
     rep.set("transitions", ev);
     rep.set("traces_validated_against_impl", ev);
     rep.set("exhaustive", true);
-    rep.set("rule", "Complete product of the stated message-shape dimensions (see DESIGN.md C13); each message: encode == independent canonical bencoder byte for byte, decode(encode(m)) == m; for every permutation of the keys of each dictionary level and every unknown-key insertion (10 keys x 7 value shapes at sorted position + every position): decode == m; plus the rejection list (missing required arguments, id lengths 0/1/19/21/40 in every id position, node-list lengths of every non-zero residue mod 26/38). distinct_nontrivial = distinct canonical encodings.");
+    rep.set("rule", "Complete product of the stated message-shape dimensions (see DESIGN.md C13); each message: encode == independent canonical bencoder byte for byte, decode(encode(m)) == m; for every permutation of the keys of each dictionary level and every unknown-key insertion (10 keys x 8 value shapes incl. non-UTF-8 bytes at sorted position + every position): decode == m; plus the rejection list (missing required arguments, id lengths 0/1/19/21/40 in every id position, node-list lengths of every non-zero residue mod 26/38). distinct_nontrivial = distinct canonical encodings.");
     for i in [0usize, corpus.len() / 3, corpus.len() / 2, corpus.len() - 1] {
         let (label, m) = &corpus[i];
         rep.sample(json!({"label":label,"encoding": String::from_utf8_lossy(&benc::reference_encode(m)).to_string()}));
